@@ -105,6 +105,13 @@ func (s BatchedPrivateTokenRequestState) FinalizeTokens(tokenResponseEnc []byte)
 		if err != nil {
 			return nil, err
 		}
+
+		// Sanity check: the parsed token must carry exactly the input the
+		// authenticator was computed over (it does not if the request was
+		// created with a nonce or key id of the wrong length)
+		if !bytes.Equal(tokens[i].AuthenticatorInput(), s.tokenInputs[i]) || !bytes.Equal(tokens[i].Authenticator, outputs[i]) {
+			return nil, fmt.Errorf("token does not match the request")
+		}
 	}
 
 	return tokens, nil
